@@ -65,8 +65,8 @@ Proof. induction ks as [|k t IH]; intros ns N D1 D2; simpl; [rewrite app_nil_r; 
     + intros x I. apply in_app_iff in I. destruct I as [I|[<-|[]]]; [apply D2, I|apply mem_false, M]. Qed.
 
 Lemma ext_cols_new cs ks : NoDup ks -> ext_cols cs ks = cs ++ filter (fun k => negb (mem k cs)) ks.
-Proof. intros N. unfold ext_cols. rewrite <- (app_nil_r cs) at 1. rewrite fold_add_end_new; [reflexivity|exact N| |];
-    intros k _ []. Qed.
+Proof. intros N. unfold ext_cols. rewrite <- (app_nil_r cs) at 1. rewrite fold_add_end_new;
+    [reflexivity|exact N|intros k ? I; destruct I|intros k I; destruct I]. Qed.
 
 (* ------------------------------------------------------------------ the keyed fold shared by extend_row and sem_wextend *)
 Section KeyedFold.
@@ -106,7 +106,7 @@ Section KeyedFold.
   Lemma kfold_spec cs l r : List.length r = List.length cs -> NoDup (map fst l) ->
     kfold cs l r = fold_left (upd cs) l r ++ map g (filter (is_new cs) l).
   Proof. intros L N. unfold kfold. rewrite <- (app_nil_r r) at 1. rewrite <- (app_nil_r cs) at 1.
-    rewrite kfold_gen; [reflexivity|exact L|exact N| |]; intros k _ []. Qed.
+    rewrite kfold_gen; [reflexivity|exact L|exact N|intros k ? I; destruct I|intros k I; destruct I]. Qed.
 
   Lemma upd_comm cs ro a b : fst a <> fst b -> upd cs (upd cs ro a) b = upd cs (upd cs ro b) a.
   Proof. intros Nab. unfold upd. destruct (index_of (fst a) cs) as [i|] eqn:Ea, (index_of (fst b) cs) as [j|] eqn:Eb; try reflexivity.
@@ -164,6 +164,30 @@ Proof. intros W N N' E C. unfold sem_wextend. rewrite C. f_equal. apply map_ext_
   - rewrite MF. exact N.
   - apply Permutation_map. apply lookups_perm; assumption.
   - rewrite !MF. apply new_keys_of_ext_cols; assumption. Qed.
+
+(* ------------------------------------------------------------------ rename: the order of the map's entries is immaterial *)
+Lemma NoDup_map_inj {A B} (g : A -> B) (l : list A) x y : NoDup (map g l) -> In x l -> In y l -> g x = g y -> x = y.
+Proof. induction l as [|a t IH]; simpl; intros N Ix Iy E; [contradiction|]. inversion N as [|? ? Na Nt]; subst.
+  destruct Ix as [<-|Ix], Iy as [<-|Iy]; try reflexivity.
+  - exfalso. apply Na. rewrite E. apply in_map, Iy.
+  - exfalso. apply Na. rewrite <- E. apply in_map, Ix.
+  - apply IH; assumption. Qed.
+
+Lemma find_perm_unique {A} (f : A -> bool) l l' : Permutation l l' ->
+  (forall x y, In x l -> In y l -> f x = true -> f y = true -> x = y) -> find f l = find f l'.
+Proof. induction 1 as [|x l l' P IH|x y l|l l' l'' P1 IH1 P2 IH2]; intros U; simpl.
+  - reflexivity.
+  - destruct (f x); [reflexivity|]. apply IH. intros a b Ia Ib. apply U; right; assumption.
+  - destruct (f x) eqn:Fx, (f y) eqn:Fy; try reflexivity.
+    f_equal. apply U; simpl; auto.
+  - rewrite IH1 by exact U. apply IH2. intros a b Ia Ib. apply U; eapply Permutation_in; try (apply Permutation_sym; exact P1); assumption. Qed.
+
+Lemma rename_col_perm m m' c : Permutation m m' -> NoDup (map snd m) -> rename_col m c = rename_col m' c.
+Proof. intros P N. unfold rename_col. rewrite (find_perm_unique _ m m' P); [reflexivity|].
+  intros x y Ix Iy Fx Fy. apply String.eqb_eq in Fx, Fy. apply (NoDup_map_inj snd m x y N Ix Iy). congruence. Qed.
+
+Lemma sem_rename_perm m m' t : Permutation m m' -> NoDup (map snd m) -> sem_rename m t = sem_rename m' t.
+Proof. intros P N. unfold sem_rename. f_equal. apply map_ext. intros c. apply rename_col_perm; assumption. Qed.
 
 (* ------------------------------------------------------------------ project: the key order is fixed by the column list *)
 Lemma same_keys_same_ops {X} (l l' : list (string * X)) : NoDup (map fst l) -> NoDup (map fst l') ->
